@@ -236,7 +236,7 @@ static char *string_literal_end(char *p) {
   for (; *p != '"'; p++) {
     if (*p == '\n' || *p == '\0')
       error_at(start, "unclosed string literal");
-    if (*p == '\\')
+    if (*p == '\\' && p[1])
       p++;
   }
   return p;
@@ -324,7 +324,7 @@ static Token *read_char_literal(char *start, char *quote, Type *ty) {
     error_at(start, "unclosed char literal");
 
   int c;
-  if (*p == '\\')
+  if (*p == '\\' && p[1])
     c = read_escaped_char(&p, p + 1);
   else
     c = decode_utf8(&p, p);
@@ -508,7 +508,7 @@ Token *tokenize(File *file) {
     // Skip line comments.
     if (startswith(p, "//")) {
       p += 2;
-      while (*p != '\n')
+      while (*p && *p != '\n')
         p++;
       has_space = true;
       continue;
